@@ -1,5 +1,157 @@
+"""C05 - pcDelta is the exact histogram of all pairwise distances."""
+import ast
+
 from .. import AnalysisBroken
+from ..data import check_background
+from ..libmodels import LIB_FACTS
+from ..rules import Equiv, canon_params, check_equiv, compare_function, lift_ite, std_rewrites, where_of
+from ..ssa import leaves
+from ..terms import const, head, is_const, show, strip, strip_all, subst, walk
+from .C17 import SPEC as C17_SPEC, equiv as c17_equiv, is_vec as c17_vec
+
+CLAIMED = True
+LEVEL = "other"
+TECHNIQUE = "value-provenance + rational-function comparison of every return path of pcDelta with a specification; decision table of the default metric with class-attribute lookup; affine check of the background bin edges against the shipped table"
+TEXT = ("Decides which distance collection reaches numpy.histogram (condensed self distances when no second collection, full cross matrix with arguments in "
+        "order otherwise), that bins are forwarded and the count slot is used; that the result is the raw counts when normalize is false, counts / total "
+        "otherwise and (counts + c) / (total + 2c) with a pseudocount, the two normalised forms agreeing at c = 0; that bins == 0 returns pc of the same "
+        "two arguments before any down-sampling; that both collections pass through downsample(., maxseqs) (decision table re-checked) before the metric "
+        "is applied; the default-metric decision table with the scopes of the three CDR3 classes; the background bin edges = index values followed by "
+        "last + 1 with the shipped index being 0..n-1. Grade A for arithmetic and glue. That a metric's condensed vector has one entry per unordered "
+        "pair is C08/C09; numpy's bin convention is trusted.")
+NOTE = "Trusted: numpy.histogram model (libmodels), numpy.random.choice / DataFrame.sample (C17), exact arithmetic."
+
+D = "pyrepseq.distance."
+SPEC = '''
+def pcDelta(seqs, seqs2=None, metric=None, bins=None, normalize=True, pseudocount=0.0, maxseqs=None):
+    try:
+        if bins == 0:
+            return pc(seqs, seqs2)
+    except ValueError:
+        pass
+    a = downsample(convert_tuple_to_dataframe_if_necessary(seqs), maxseqs)
+    b = downsample(convert_tuple_to_dataframe_if_necessary(seqs2), maxseqs)
+    if metric is None:
+        metric = get_default_metric_for_input_data(a)
+    if bins is None:
+        bins = np.arange(0, 25)
+    if b is None:
+        hist = np.histogram(metric.calc_pdist_vector(a), bins=bins)[0]
+    else:
+        hist = np.histogram(metric.calc_cdist_matrix(a, b), bins=bins)[0]
+    if not normalize:
+        return hist
+    if not pseudocount:
+        return hist / np.sum(hist)
+    return (hist + pseudocount) / (np.sum(hist) + 2 * pseudocount)
+
+def get_default_metric_for_input_data(input_data):
+    if isinstance(input_data, DataFrame):
+        if "CDR3A" in input_data and "CDR3B" in input_data:
+            return Cdr3Levenshtein()
+        if "CDR3A" in input_data:
+            return AlphaCdr3Levenshtein()
+        if "CDR3B" in input_data:
+            return BetaCdr3Levenshtein()
+    return Levenshtein()
+
+def load_pcDelta_background(return_bins=True):
+    back = pd.read_csv(os.path.join(os.path.dirname(__file__), "data", "pcdelta_pbmc_minervina.csv"), index_col=0)
+    if not return_bins:
+        return back
+    bins = list(back.index)
+    bins.append(bins[-1] + 1)
+    return back, np.array(bins)
+'''
+
+SCOPES = {"Cdr3Levenshtein": ("PAIRED", "CDR3"), "AlphaCdr3Levenshtein": ("ALPHA", "CDR3"), "BetaCdr3Levenshtein": ("BETA", "CDR3")}
+
+
+def is_vec(t):
+    t = strip(t)
+    return head(t) in ("item", "sub") and head(strip(t[1])) == "call" and strip(strip(t[1])[1]) == ("glob", "numpy.histogram")
+
+
+def hist_rewrite(t):
+    # np.histogram(...)[0] and the unpacked first slot are the same value
+    if head(t) == "sub" and is_const(t[2], 0) and head(strip(t[1])) == "call" and strip(strip(t[1])[1]) == ("glob", "numpy.histogram"):
+        return ("item", t[1], 0)
+    return t
 
 
 def run(r):
-    raise AnalysisBroken("rule set for C05 not implemented yet (fail-closed stub)")
+    rep = r.rep
+    rep.explanation = "Every return path of pcDelta, the default-metric table, downsample and the background loader were normalised and compared with the specification; the shipped table's index was read."
+    rep.trust(LIB_FACTS["numpy.histogram"], LIB_FACTS["numpy.random.choice"], LIB_FACTS["DataFrame.sample"], "exact arithmetic (no floating point)")
+    eq = Equiv(vec=is_vec, rewrites=std_rewrites() + [hist_rewrite], modelled={"numpy.histogram", "numpy.arange"})
+    compare_function(r, "C05-PIPE", D + "pcDelta", SPEC, "pcDelta: histogram (count slot, bins forwarded) of the condensed self distances or of the cross matrix of the down-sampled collections; "
+                     "raw counts / counts over total / (counts + c) over (total + 2c); bins == 0 returns pc of the same arguments", eq=eq, key="pipeline and arithmetic")
+    # path agreement at pseudocount = 0
+    s = r.A.summary(D + "pcDelta")
+    pn = [p[0] for p in s.params]
+    pc_i = pn.index("pseudocount") if "pseudocount" in pn else None
+    if pc_i is None:
+        raise AnalysisBroken("pcDelta: parameter pseudocount vanished")
+    cp = canon_params(s)
+    pterm = ("param", f"#{pc_i}")
+    lv = leaves(eq.prep(subst(s.ret if head(strip(s.ret)) != "try" else strip(s.ret)[1], cp)))
+    with_c = [leaf for g, leaf in lv if any(x == pterm for x in walk(leaf))]
+    no_c = [leaf for g, leaf in lv if any(strip_all(c) == ("un", "not", pterm) and pol or strip_all(c) == pterm and not pol for c, pol in g)]
+    n = 0
+    for a in with_c:
+        a0 = subst(a, {pterm: const(0)})
+        for b in no_c:
+            from ..rf import RFContext
+            if strip_all(a) == strip_all(b):
+                continue
+            # compare only leaves built on the same histogram
+            ha = {x for x in walk(a) if head(x) == "call" and strip(x[1]) == ("glob", "numpy.histogram")}
+            hb = {x for x in walk(b) if head(x) == "call" and strip(x[1]) == ("glob", "numpy.histogram")}
+            if ha != hb:
+                continue
+            n += 1
+            ok = eq.leaf_eq(a0, b)
+            rep.ob("C05-RF", D + "pcDelta", ok, "the pseudocount form reduces to counts / total at pseudocount = 0", where_of(r.P, s.func, s.func.node), expected=eq.last[1] if eq.last else "", found=eq.last[0] if eq.last else "", key=f"agreement at c=0 #{n}")
+    rep.require(n >= 1, "C05-RF: no pair of normalised leaves to compare at pseudocount = 0")
+    # default metric table
+    compare_function(r, "C05-DT", D + "get_default_metric_for_input_data", SPEC, "default metric: paired CDR3 Levenshtein with both CDR3 columns, alpha / beta with one, plain Levenshtein otherwise",
+                     eq=Equiv(rewrites=std_rewrites()), key="default metric table")
+    for cname, (chain, cdr) in SCOPES.items():
+        cq = f"pyrepseq.metric.tcr_metric.tcr_levenshtein.{cname}"
+        ci = r.P.cls(cq)
+        got = []
+        for attr in ("_chain_scope", "_cdr_scope"):
+            _, val = r.P.find_class_attr(cq, attr)
+            got.append(ast.unparse(val).split(".")[-1] if val is not None else None)
+        rep.ob("C05-DT", cq, got == [chain, cdr], f"{cname} compares the {chain.lower()} CDR3 loop(s) only", f"{r.P.modules[ci.module].relpath}:{ci.node.lineno}", expected=f"{chain}, {cdr}", found=str(got), key=f"scope {cname}")
+    # downsample (shared with C17)
+    s2 = r.A.summary(D + "downsample")
+    sp2 = r.A.summarize_source(C17_SPEC, "downsample", "pyrepseq.distance")
+    check_equiv(rep, "C05-DS", D + "downsample", "down-sampling keeps the object when short enough, else draws exactly maxseqs elements without replacement", subst(s2.ret, canon_params(s2)),
+                subst(sp2.ret, canon_params(sp2)), where_of(r.P, s2.func, s2.func.node), eq=c17_equiv(c17_vec), key="downsample")
+    # background bins
+    compare_function(r, "C05-BG", D + "load_pcDelta_background", SPEC, "bin edges = index values of the bundled table followed by last + 1", eq=Equiv(rewrites=std_rewrites(), modelled={"pandas.read_csv", "os.path.join", "os.path.dirname"}), key="background bins")
+    check_background(rep, "C05-BG", r.P.root)
+    for rule, fl in (("C05-PIPE", 1), ("C05-DT", 4), ("C05-DS", 1), ("C05-BG", 2)):
+        rep.floor(rule, fl)
+
+
+from ..selftest import V  # noqa: E402
+
+DI = "pyrepseq/distance.py"
+VARIANTS = [
+    V("pseudocount-not-doubled", DI, "hist_sum = np.sum(hist) + 2 * pseudocount", "hist_sum = np.sum(hist) + pseudocount", rule="C05-PIPE"),
+    V("second-collection-not-downsampled", DI, "    seqs2 = downsample(seqs2, maxseqs)\n", "", rule="C05-PIPE"),
+    V("alpha-beta-rows-swapped", DI, '        elif "CDR3A" in input_data:\n            return AlphaCdr3Levenshtein()\n        elif "CDR3B" in input_data:\n            return BetaCdr3Levenshtein()', '        elif "CDR3A" in input_data:\n            return BetaCdr3Levenshtein()\n        elif "CDR3B" in input_data:\n            return AlphaCdr3Levenshtein()', rule="C05-DT"),
+    V("background-last-plus-two", DI, "    bins.append(bins[-1] + 1)", "    bins.append(bins[-1] + 2)", rule="C05-BG"),
+    V("cdist-arguments-swapped", DI, "metric.calc_cdist_matrix(seqs, seqs2), bins=bins", "metric.calc_cdist_matrix(seqs2, seqs), bins=bins", rule="C05-PIPE"),
+    V("bins-not-forwarded", DI, "hist, _ = np.histogram(metric.calc_pdist_vector(seqs), bins=bins)", "hist, _ = np.histogram(metric.calc_pdist_vector(seqs))", rule="C05-PIPE"),
+    V("edges-returned-instead-of-counts", DI, "        hist, _ = np.histogram(metric.calc_pdist_vector(seqs), bins=bins)", "        _, hist = np.histogram(metric.calc_pdist_vector(seqs), bins=bins)", rule="C05-PIPE"),
+    V("bins0-after-downsampling", DI, "            return pc(seqs, seqs2)", "            return pc(downsample(seqs, maxseqs), seqs2)", rule="C05-PIPE"),
+    V("self-uses-cdist", DI, "hist, _ = np.histogram(metric.calc_pdist_vector(seqs), bins=bins)", "hist, _ = np.histogram(metric.calc_cdist_matrix(seqs, seqs), bins=bins)", rule="C05-PIPE"),
+    V("normalise-by-len", DI, "        return hist / np.sum(hist)\n", "        return hist / len(hist)\n", rule="C05"),
+    V("default-bins-26", DI, "        bins = np.arange(0, 25)", "        bins = np.arange(1, 25)", rule="C05-PIPE"),
+    V("silent-hist-sum-method", DI, "        return hist / np.sum(hist)\n", "        return hist / hist.sum()\n", expect="silent"),
+    V("silent-total-local", DI, "    hist_sum = np.sum(hist) + 2 * pseudocount\n    hist = hist.astype(np.float64) + pseudocount\n    return hist / hist_sum", "    total = np.sum(hist)\n    return (hist + pseudocount) / (total + pseudocount + pseudocount)", expect="silent"),
+    V("silent-index-slot", DI, "        hist, _ = np.histogram(metric.calc_pdist_vector(seqs), bins=bins)", "        hist = np.histogram(metric.calc_pdist_vector(seqs), bins=bins)[0]", expect="silent"),
+]
